@@ -300,6 +300,15 @@ theorem update_pdr_final_once (ops : List SOp) (rnode : Nat) (l r : Seid) (c0 : 
   · have h2 : ¬ ((alGet s.urrs v).isSome = true ∧ refs s.pdrs v = 1) := fun h => h1 (this.mpr h)
     simp [h1, h2]
 
+/-! ### a URR outlives its last referring PDR -/
+
+/-- losing the last referring PDR returns the URR's usage (a termination report) but does not end the URR: the session knows
+    exactly the same URRs after a Remove PDR / Update PDR as before — so a later Remove URR, Query URR, re-attachment or the
+    session's deletion still finds it and returns what it measured since -/
+theorem urr_outlives_last_pdr (s : Sess) (ie : RuleIE) (c : Ctx) :
+    (s.removePDR ie c).1.urrs.map (·.1) = s.urrs.map (·.1) ∧ (s.updatePDR ie c).1.urrs.map (·.1) = s.urrs.map (·.1) :=
+  detach_keeps_urr_table s ie c
+
 /-! ### session deletion -/
 
 theorem run_keys (ops : List SOp) : ∀ (s : Sess) (c : Ctx), UKeys s → UKeys (run s c ops).1 := by
